@@ -34,6 +34,31 @@ func (e *OpEngine) SizeThresholds() []int {
 				case *ssa.BinOp:
 					switch x.Op {
 					case token.LSS, token.LEQ, token.GTR, token.GEQ, token.EQL, token.NEQ, token.REM, token.QUO:
+					case token.ADD, token.SUB, token.MUL:
+						// a stride (`p += 4`, `i*4`): an unrolled or blocked loop
+					case token.AND, token.AND_NOT, token.SHL, token.SHR:
+						// n &^ 3, n & 3, n >> 2: rounding to / remainder of a power-of-two block
+						if c, ok := x.Y.(*ssa.Const); ok && c.Value != nil && c.Value.Kind() == constant.Int {
+							if _, oc := x.X.(*ssa.Const); !oc {
+								if v, exact := constant.Int64Val(c.Value); exact {
+									blk := int64(0)
+									switch x.Op {
+									case token.AND, token.AND_NOT:
+										if v >= 3 && (v+1)&v == 0 {
+											blk = v + 1
+										}
+									default:
+										if v >= 2 && v <= 13 {
+											blk = 1 << uint(v)
+										}
+									}
+									if blk >= 4 && blk <= 8192 {
+										set[int(blk)] = true
+									}
+								}
+							}
+						}
+						continue
 					default:
 						continue
 					}
@@ -48,6 +73,17 @@ func (e *OpEngine) SizeThresholds() []int {
 						}
 						if v, exact := constant.Int64Val(c.Value); exact && v >= 4 && v <= 8192 {
 							set[int(v)] = true
+						}
+					}
+				case *ssa.Call:
+					// min(n, 4096) / max(n, 64): a size clamp
+					if b, ok := x.Call.Value.(*ssa.Builtin); ok && (b.Name() == "min" || b.Name() == "max") {
+						for _, a := range x.Call.Args {
+							if c, ok := a.(*ssa.Const); ok && c.Value != nil && c.Value.Kind() == constant.Int {
+								if v, exact := constant.Int64Val(c.Value); exact && v >= 4 && v <= 8192 {
+									set[int(v)] = true
+								}
+							}
 						}
 					}
 				case *ssa.MakeSlice:
